@@ -184,8 +184,21 @@ structure State (V : Type) where
   fronts : List (Conn × AL V)
   /-- BackSession objects the handlers kept or made (`keep`, `mk`, `p.mkb`) -/
   handles : List (String × Back V)
+  /-- services of `Cfg.services` that are currently NOT in the cluster view (`Cluster.UpdateClusterTopology`
+  without them): `GetServicePID` finds nothing.  The node STATE a member is published with
+  (Init / Working / Retiring / Retired) is deliberately not part of the state: `GetServicePID`,
+  which push, query and forward use, does not look at it. -/
+  away : List String := []
 
-def State.init {V : Type} : State V := { next := [], fronts := [], handles := [] }
+def State.init {V : Type} : State V := { next := [], fronts := [], handles := [], away := [] }
+
+/-- `app.GetServicePID(name) != nil` for a front-end: it is known and a cluster member -/
+def State.reach {V : Type} (s : State V) (cfg : Cfg) (name : String) : Bool :=
+  cfg.isFront name && !s.away.contains name
+
+/-- the type of a service `GetServicePID` finds -/
+def State.memberType {V : Type} (s : State V) (cfg : Cfg) (name : String) : Option String :=
+  if s.away.contains name then none else cfg.typeOf name
 
 /-- what happened to front maps, in order -/
 inductive Ev (V : Type) where
@@ -266,14 +279,14 @@ def backPush (cfg : Cfg) (s : State V) (b : Back V) : State V × Back V × Res V
   if !b.dirt then (s, b, .ok, [])
   else
     let b' := { b with dirt := false }
-    if !cfg.isFront b.serverId then (s, b', .err, [])        -- `GetServicePID` finds nothing
+    if !s.reach cfg b.serverId then (s, b', .err, [])        -- `GetServicePID` finds nothing
     else
       let (s', evs) := deliver s b.target (SData.toJson b.newData)
       (s', b', .ok, evs)
 
 /-- `BackSession.QuerySession` up to its callback -/
 def backQuery (cfg : Cfg) (s : State V) (b : Back V) : Back V × Res V :=
-  if !cfg.isFront b.serverId then (b, .err)                  -- `ErrorNoService`
+  if !s.reach cfg b.serverId then (b, .err)                  -- `ErrorNoService`
   else match lget s.fronts b.target with
     | none => (b, .err)                                      -- `ErrorNoSession`
     | some m =>
@@ -360,6 +373,9 @@ inductive Op (V : Type) where
   /-- code of the handle's service continues with the kept session -/
   | on (h : String) (script : List (SOp V))
   | snap
+  /-- `Cluster.UpdateClusterTopology`: the services in `away` are not members, every other service is,
+  published with the node state `states` gives it (0 Init, 1 Working, 2 Retiring, 3 Retired) -/
+  | topo (away : List String) (states : List (String × Nat))
   -- pure layer
   | pMkf (c : Conn)
   | pMkb (h : String) (c : Conn) (uid : String)
@@ -405,7 +421,7 @@ def stepReq (cfg : Cfg) (s : State V) (c : Conn) (svcType : String) (ntf : Bool)
     else
       -- `ForwarderComponent.Forward`
       let name := routeName cfg m svcType
-      match cfg.typeOf name with
+      match s.memberType cfg name with
       | none => ⟨s, .noTarget (if ntf then .none else .err), []⟩
       | some ty =>
         if ty ≠ svcType then ⟨s, .noTarget .none, []⟩          -- delivered to a service of another type: dropped there
@@ -451,6 +467,7 @@ def step (cfg : Cfg) (s : State V) : Op V → StepR V
         let t := runScript cfg s (.back b) (some h) script
         ⟨storeKept t.st t.sess t.kept, .script t.res, t.evs⟩
   | .snap => ⟨s, .snap (snapOf cfg s), []⟩
+  | .topo away _ => ⟨{ s with away := away }, .ok, []⟩
   | .pMkf c =>
     if cfg.isFront c.1 then ⟨s, .badop, []⟩
     else ⟨{ s with fronts := lset s.fronts c (frontNew c) }, .ok, [Ev.opened c]⟩
